@@ -1,5 +1,5 @@
 """C03 — no UB, crash or panic through the safe API (DESIGN §4 C03)."""
-from ..engines import ranges, dispatch_rules, validators, index_rules, witness, loadwidth
+from ..engines import ranges, dispatch_rules, validators, index_rules, witness, loadwidth, storewidth
 from ..progs import programs
 
 
@@ -57,6 +57,7 @@ def run(rep, tier):
         if cfg == "wasm":
             # 32-bit usize: arithmetic is informational only (DESIGN Appendix B); kernels are checked
             rep.call(loadwidth.guard_adequacy, rep, prog, "C03.loadwidth", loadwidth.FLOOR.get(cfg, 50))
+            rep.call(storewidth.check, rep, prog, "C03.storewidth", storewidth.FLOOR.get(cfg, 40))
             continue
         n = rep.call(arith, rep, prog, "C03.arith") or 0
         rep.floor("C03.arith", "arithmetic asserts in scope", n, 100)
@@ -70,6 +71,7 @@ def run(rep, tier):
         rep.call(index_rules.table_index, rep, prog, "C03.table-index")
         rep.call(index_rules.unwraps, rep, prog, "C03.unwrap")
         rep.call(index_rules.scratch_grow, rep, prog, "C03.scratch-grow")
+        rep.call(storewidth.check, rep, prog, "C03.storewidth", storewidth.FLOOR.get(cfg, 40))
         rep.call(dispatch_rules.t_precision, rep, prog, "C03.precision", report_empty=False)
         rep.call(dispatch_rules.headroom, rep, prog, "C03.headroom")
         rep.call(dispatch_rules.t_feature, rep, prog, "C03.feature")
